@@ -367,92 +367,83 @@ theorem sdf_cut_header_stops (t : List Line) (ht : 0 < t.length ∧ t.length < 4
   | _ :: _ :: _ :: _ :: _, h => simp at h; omega
 end sdf
 
-/-! ## PDB (writer + reader) -/
+/-! ## PDB (writer + reader)
+
+   A frame is recognised by the reader through its ATOM/HETATM records only: TITLE and COMPND records are collected,
+   every other record is passed over, and a record starting with `END` (`END`, `ENDMDL`) ends the frame only after
+   an atom record was read.  Theorems are stated for frames in the general form `PdbBlock` (`Lemmas/Traj.lean`):
+   passed-over lines, TITLE / COMPND records with continuation numbers as written by `_dump_multiline_str`,
+   passed-over lines (`MODEL n`), ATOM records, CONECT records, an `END…` record.  `dump_one` writes the instance
+   `pdbBlockOfObj` (`pdbBlockLines_ofObj`), trajectories of other programs the instance `pdbModelBlock`.
+
+   DOMAIN.  A frame WITHOUT ATOM/HETATM record is outside: it is not a molecule for the reader — its TITLE records
+   and its END are absorbed by the next frame (`pdb_empty_frame_merged_violated` below: two frames written, one
+   read), or, at the end of the file, by the "Molecule could not be read" that ends the loop.  That tolerant end is
+   needed for every well-formed file: after the last frame's END (and after the END / MASTER records that follow the
+   last ENDMDL) `load_one` finds no atom record, raises LoadError, and `load_many` returns because a frame was read
+   (`except LoadError: if nframe == 0: raise; return`). -/
 
 section pdb
 variable {α β : Type} (pa : Line → Option α) (fa : α → Line) (pb : Line → Option β) (fb : β → Line)
 
-/-- **prefix-consumption law** for PDB.  Domain: at least one atom (see `pdb_empty_frame_merged_violated`),
-    single-line title and compound (FULL STATEMENT, not proved: also for multi-line titles/compounds with fewer
-    than 99 998 lines, where the continuation prefix `TITLE` + `str(i+2).rjust(5)` + `' '` is stripped again by
-    `line[10:].strip()`; the `traj:pdb` stream exercises those). -/
+/-- **prefix-consumption law** for a PDB frame in general form: followed by anything, it is read back as
+    `pdbBlockFrame b` (title / compound lines stripped, continuation numbers removed by `line[10:]`) and exactly its
+    lines are consumed. -/
+theorem pdb_frame_law (ha : ∀ a, pa (pATOM ++ [' ', ' '] ++ fa a) = some a)
+    (hb : ∀ b, pb (pCONECT ++ fb b) = some b) (b : PdbBlock α β) (hok : PdbBlockOk b) (rest : List Line) (ln : Int) :
+    ∃ ln', pdbLoadOne pa pb ⟨pdbBlockLines fa fb b ++ rest, ln⟩ = .ok (pdbBlockFrame b) ⟨rest, ln'⟩ :=
+  pdb_block_law pa fa pb fb ha hb b hok rest ln
+
+/-- the same for a frame written by `dump_one`, multi-line title and compound included -/
 theorem pdb_prefix_law (ha : ∀ a, pa (pATOM ++ [' ', ' '] ++ fa a) = some a)
-    (hb : ∀ b, pb (pCONECT ++ fb b) = some b) (o : PdbObj α β) (hat : o.atoms ≠ [])
-    (hnl : '\n' ∉ o.title) (hcn : ∀ c, o.compnd = some c → '\n' ∉ c) (rest : List Line) (ln : Int) :
+    (hb : ∀ b, pb (pCONECT ++ fb b) = some b) (o : PdbObj α β) (hd : PdbDom o) (rest : List Line) (ln : Int) :
     ∃ ln', pdbLoadOne pa pb ⟨pdbDumpOne fa fb o ++ rest, ln⟩ = .ok (pdbNorm o) ⟨rest, ln'⟩ := by
-  obtain ⟨title, compnd, atoms, conects⟩ := o
-  simp only at hat hnl hcn
-  have hT : splitNl (titleOr title) = [titleOr title] := splitNl_no_nl _ (titleOr_no_nl _ hnl)
-  have hfound : (false || !atoms.isEmpty) = true := by
-    cases atoms with
-    | nil => exact absurd rfl hat
-    | cons _ _ => rfl
-  cases compnd with
-  | none =>
-    obtain ⟨ln1, h1⟩ := pdbGo_atoms pa fa pb ha atoms
-      (conects.map (fun b => pCONECT ++ fb b) ++ (pEND :: rest)) (ln + 1) ⟨[] ++ [strip (titleOr title)], [], [], [], false⟩ false
-    obtain ⟨ln2, h2⟩ := pdbGo_conects pa pb fb hb conects (pEND :: rest) ln1
-      ⟨[] ++ [strip (titleOr title)], [], [] ++ atoms, [], false⟩ (false || !atoms.isEmpty)
-    refine ⟨ln2 + 1, ?_⟩
-    simp only [pdbLoadOne, pdbDumpOne, hT, pdbMulti, pdbMultiAux, List.append_assoc, List.cons_append,
-      List.nil_append, List.singleton_append, pdbGo_title]
-    simp only [List.nil_append, List.append_assoc, List.cons_append] at h1 h2
-    rw [h1, h2, hfound]
-    simp [pdbGo, pEND, pTITLE, pCOMPND, pATOM, pHETATM, pCONECT, startsWith, pdbNorm, hT]
-  | some c =>
-    have hC : splitNl c = [c] := splitNl_no_nl _ (hcn c rfl)
-    obtain ⟨ln1, h1⟩ := pdbGo_atoms pa fa pb ha atoms
-      (conects.map (fun b => pCONECT ++ fb b) ++ (pEND :: rest)) (ln + 1 + 1)
-      ⟨[] ++ [strip (titleOr title)], [] ++ [strip c], [], [], false⟩ false
-    obtain ⟨ln2, h2⟩ := pdbGo_conects pa pb fb hb conects (pEND :: rest) ln1
-      ⟨[] ++ [strip (titleOr title)], [] ++ [strip c], [] ++ atoms, [], false⟩ (false || !atoms.isEmpty)
-    refine ⟨ln2 + 1, ?_⟩
-    simp only [pdbLoadOne, pdbDumpOne, hT, hC, pdbMulti, pdbMultiAux, List.append_assoc, List.cons_append,
-      List.nil_append, List.singleton_append, pdbGo_title, pdbGo_compnd]
-    simp only [List.nil_append, List.append_assoc, List.cons_append] at h1 h2
-    rw [h1, h2, hfound]
-    simp [pdbGo, pEND, pTITLE, pCOMPND, pATOM, pHETATM, pCONECT, startsWith, pdbNorm, hT, hC]
+  have := pdb_block_law pa fa pb fb ha hb (pdbBlockOfObj o) (pdbBlockOk_ofObj o hd) rest ln
+  rwa [pdbBlockLines_ofObj, pdbBlockFrame_ofObj] at this
 
-theorem pdb_dump_ne (o : PdbObj α β) : pdbDumpOne fa fb o ≠ [] := by
-  simp [pdbDumpOne]
+/-- **round trip for PDB frames in general form** (written by `dump_one`, or MODEL/ENDMDL frames of other
+    programs), any number of them, followed by records that carry no atom (END, MASTER, blank lines): after the
+    last frame `load_one` raises "Molecule could not be read" and — a frame having been read — the loop returns. -/
+theorem pdb_blocks_roundtrip (ha : ∀ a, pa (pATOM ++ [' ', ' '] ++ fa a) = some a)
+    (hb : ∀ b, pb (pCONECT ++ fb b) = some b) (bs : List (PdbBlock α β)) (hne : bs ≠ [])
+    (hd : ∀ b ∈ bs, PdbBlockOk b) (trail : List Line)
+    (htr : ∀ l ∈ trail, startsWith pATOM l = false ∧ startsWith pHETATM l = false ∧ startsWith pCONECT l = false) :
+    loadMany pdbSkel (pdbLoadOne pa pb) (bs.flatMap (pdbBlockLines fa fb) ++ trail) =
+      ⟨bs.map pdbBlockFrame, .done⟩ := by
+  have htail : ∀ fuel ln, fuel ≥ trail.length + 1 →
+      runLoop pdbSkel (pdbLoadOne pa pb) fuel false ⟨trail, ln⟩ = (([] : List (PdbFrame α β)), GenFinal.ret) := by
+    intro fuel ln hf
+    obtain ⟨ln', hk⟩ := pdbGo_no_atoms pa pb trail ln ⟨[], [], [], [], false⟩ htr
+    cases fuel with
+    | zero => simp at hf
+    | succ fuel => simp [runLoop, pdbSkel, runPeek, pdbLoadOne, hk, findHandler]
+  obtain ⟨r, hr, he⟩ := runLoop_blocks pdbSkel (pdbLoadOne pa pb) (pdbBlockLines fa fb) pdbBlockFrame
+    PdbBlockOk (pdbBlockLines_ne fa fb)
+    (fun b hb' rest ln first => pdb_step pa fa pb fb ha hb b hb' rest ln first)
+    trail (fun r => r = (([] : List (PdbFrame α β)), GenFinal.ret)) htail bs _ 0 true hd (Or.inl hne)
+    (Nat.le_refl _)
+  subst hr
+  simpa [apiFinal] using loadMany_of_runLoop _ _ _ _ _ he
 
-/-- the part of the PDB domain the round trip is proved for -/
-def PdbDom (o : PdbObj α β) : Prop :=
-  o.atoms ≠ [] ∧ '\n' ∉ o.title ∧ ∀ c, o.compnd = some c → '\n' ∉ c
-
-/-- **round trip, any number of frames (`_partial`: single-line titles, see `pdb_prefix_law`)**: the file written
-    by dump_many reads back as the same frames in order; after the last `END` the reader finds no further atom
-    record, `load_one` raises "Molecule could not be read" and — because at least one frame was read — the loop
-    returns. -/
-theorem pdb_roundtrip_partial (ha : ∀ a, pa (pATOM ++ [' ', ' '] ++ fa a) = some a)
+/-- **round trip of dump_many / load_many for PDB, any number of frames**, multi-line titles and compounds
+    included.  Domain `PdbDom`: at least one atom per frame, fewer than 99 999 title lines and 9 999 compound lines. -/
+theorem pdb_roundtrip (ha : ∀ a, pa (pATOM ++ [' ', ' '] ++ fa a) = some a)
     (hb : ∀ b, pb (pCONECT ++ fb b) = some b) (os : List (PdbObj α β)) (hne : os ≠ [])
     (hd : ∀ o ∈ os, PdbDom o) :
     loadMany pdbSkel (pdbLoadOne pa pb) (os.flatMap (pdbDumpOne fa fb)) = ⟨os.map pdbNorm, .done⟩ := by
-  have htail : ∀ fuel ln, fuel ≥ ([] : List Line).length + 1 →
-      runLoop pdbSkel (pdbLoadOne pa pb) fuel false ⟨[], ln⟩ = (([] : List (PdbFrame α β)), GenFinal.ret) := by
-    intro fuel ln hf
-    cases fuel with
-    | zero => simp at hf
-    | succ fuel => simp [runLoop, pdbSkel, runPeek, pdbLoadOne, pdbGo, findHandler]
-  obtain ⟨r, hr, he⟩ := runLoop_blocks pdbSkel (pdbLoadOne pa pb) (pdbDumpOne fa fb) pdbNorm
-    PdbDom (pdb_dump_ne fa fb)
-    (fun o ho rest ln first => by
-      obtain ⟨ln', hl⟩ := pdb_prefix_law pa fa pb fb ha hb o ho.1 ho.2.1 ho.2.2 rest ln
-      exact ⟨_, ln', rfl, hl⟩)
-    [] (fun r => r = (([] : List (PdbFrame α β)), GenFinal.ret)) htail os
-    ((os.flatMap (pdbDumpOne fa fb)).length + 1) 0 true hd (Or.inl hne) (by simp)
-  subst hr
-  have := loadMany_of_runLoop pdbSkel (pdbLoadOne pa pb) (os.flatMap (pdbDumpOne fa fb)) _ _
-    (by simpa using he)
-  simpa [apiFinal] using this
+  have := pdb_blocks_roundtrip pa fa pb fb ha hb (os.map pdbBlockOfObj) (by simpa using hne)
+    (by intro b hb'; simp at hb'; obtain ⟨o, ho, rfl⟩ := hb'; exact pdbBlockOk_ofObj o (hd o ho)) [] (by simp)
+  rw [pdb_flatMap_ofObj, pdb_map_ofObj, List.append_nil] at this
+  exact this
 
-/-- **malformed_reached** for PDB: an unreadable ATOM/HETATM/CONECT record (any exception other than the
-    "no molecule" LoadError) in a later frame is raised as LoadError after the complete frames. -/
-theorem pdb_malformed_reached_partial (ha : ∀ a, pa (pATOM ++ [' ', ' '] ++ fa a) = some a)
-    (hb : ∀ b, pb (pCONECT ++ fb b) = some b) (os : List (PdbObj α β)) (hd : ∀ o ∈ os, PdbDom o)
+/-- **malformed_reached** for PDB: after complete frames, lines on which `load_one` raises anything but its own
+    "Molecule could not be read" (an unreadable ATOM/HETATM/CONECT record) end the sequence with LoadError after
+    exactly the complete frames. -/
+theorem pdb_malformed_reached (ha : ∀ a, pa (pATOM ++ [' ', ' '] ++ fa a) = some a)
+    (hb : ∀ b, pb (pCONECT ++ fb b) = some b) (bs : List (PdbBlock α β)) (hd : ∀ b ∈ bs, PdbBlockOk b)
     (bad : List Line) (hbad : ∀ ln, ∃ s, pdbLoadOne pa pb ⟨bad, ln⟩ = .raise .other s) :
-    ∃ ln, loadMany pdbSkel (pdbLoadOne pa pb) (os.flatMap (pdbDumpOne fa fb) ++ bad) =
-      ⟨os.map pdbNorm, .loadError ln⟩ := by
+    ∃ ln, loadMany pdbSkel (pdbLoadOne pa pb) (bs.flatMap (pdbBlockLines fa fb) ++ bad) =
+      ⟨bs.map pdbBlockFrame, .loadError ln⟩ := by
   have htail : ∀ fuel ln first, fuel ≥ bad.length + 1 →
       EndsRaised (runLoop pdbSkel (pdbLoadOne pa pb) fuel first ⟨bad, ln⟩) := by
     intro fuel ln first hfu
@@ -461,15 +452,87 @@ theorem pdb_malformed_reached_partial (ha : ∀ a, pa (pATOM ++ [' ', ' '] ++ fa
     | zero => simp at hfu
     | succ fuel =>
       exact endsRaised_of (e := .other) (s := s) (by simp [runLoop, pdbSkel, runPeek, hst, findHandler])
-  obtain ⟨r, ⟨hr1, e, s, hr2⟩, he⟩ := runLoop_blocks_any pdbSkel (pdbLoadOne pa pb) (pdbDumpOne fa fb) pdbNorm
-    PdbDom (pdb_dump_ne fa fb)
-    (fun o ho rest ln first => by
-      obtain ⟨ln', hl⟩ := pdb_prefix_law pa fa pb fb ha hb o ho.1 ho.2.1 ho.2.2 rest ln
-      exact ⟨_, ln', rfl, hl⟩)
-    bad EndsRaised htail os _ 0 true hd (Nat.le_refl _)
+  obtain ⟨r, ⟨hr1, e, s, hr2⟩, he⟩ := runLoop_blocks_any pdbSkel (pdbLoadOne pa pb) (pdbBlockLines fa fb)
+    pdbBlockFrame PdbBlockOk (pdbBlockLines_ne fa fb)
+    (fun b hb' rest ln first => pdb_step pa fa pb fb ha hb b hb' rest ln first)
+    bad EndsRaised htail bs _ 0 true hd (Nat.le_refl _)
   refine ⟨s.lineno, ?_⟩
   have := loadMany_of_runLoop _ _ _ _ _ he
   simpa [hr1, hr2, apiFinal] using this
+
+/-- a frame as other programs write trajectories: `MODEL n`, ATOM records, CONECT records, `ENDMDL` -/
+def pdbModelBlock (f : Line × List α × List β) : PdbBlock α β :=
+  ⟨[], [], [], [f.1], f.2.1, f.2.2, ['M', 'D', 'L']⟩
+
+/-- **MODEL / ENDMDL trajectories** (the harness's renderer; the library writes END-terminated frames only): every
+    model is one frame, the `END` after the last `ENDMDL` is absorbed by the tolerant end of the loop. -/
+theorem pdb_models_roundtrip (ha : ∀ a, pa (pATOM ++ [' ', ' '] ++ fa a) = some a)
+    (hb : ∀ b, pb (pCONECT ++ fb b) = some b) (fs : List (Line × List α × List β)) (hne : fs ≠ [])
+    (hd : ∀ f ∈ fs, pdbSkip f.1 = true ∧ f.2.1 ≠ []) :
+    loadMany pdbSkel (pdbLoadOne pa pb) (fs.flatMap (fun f => pdbBlockLines fa fb (pdbModelBlock f)) ++ [pEND]) =
+      ⟨fs.map (fun f => ⟨[], [], f.2.1, f.2.2, true⟩), .done⟩ := by
+  have := pdb_blocks_roundtrip pa fa pb fb ha hb (fs.map pdbModelBlock) (by simpa using hne)
+    (by
+      intro b hb'
+      simp only [List.mem_map] at hb'
+      obtain ⟨f, hf, rfl⟩ := hb'
+      obtain ⟨h1, h2⟩ := hd f hf
+      exact ⟨h2, by simp [pdbModelBlock], by simpa [pdbModelBlock] using h1, by simp [pdbModelBlock],
+        by simp [pdbModelBlock]⟩)
+    [pEND] (by decide)
+  simpa [List.flatMap_map, List.map_map, Function.comp_def, pdbBlockFrame, pdbModelBlock] using this
+
+/-- the loop yields one more frame, flagged with the "END is not found" warning, and ends normally -/
+def PartialEnd (r : List (PdbFrame α β) × GenFinal) : Prop := ∃ g, g.endReached = false ∧ r = ([g], .ret)
+
+/-- **truncated_last** for PDB: a written file cut inside its last frame, after at least one of its ATOM records
+    and before its END record: the complete frames are yielded, then the partial frame WITH the LoadWarning "The
+    END is not found" (`endReached = false`) — never without it. -/
+theorem pdb_truncated_last (ha : ∀ a, pa (pATOM ++ [' ', ' '] ++ fa a) = some a)
+    (hb : ∀ b, pb (pCONECT ++ fb b) = some b) (os : List (PdbObj α β)) (hd : ∀ o ∈ os, PdbDom o)
+    (o : PdbObj α β) (hat : o.atoms ≠ []) (m : Nat) (hlo : (pdbHeader o).length < m)
+    (hm : m < (pdbDumpOne fa fb o).length) :
+    ∃ g, g.endReached = false ∧
+      loadMany pdbSkel (pdbLoadOne pa pb) (os.flatMap (pdbDumpOne fa fb) ++ (pdbDumpOne fa fb o).take m) =
+        ⟨os.map pdbNorm ++ [g], .done⟩ := by
+  have htail : ∀ fuel ln first, fuel ≥ ((pdbDumpOne fa fb o).take m).length + 1 →
+      PartialEnd
+        (runLoop pdbSkel (pdbLoadOne pa pb) fuel first ⟨(pdbDumpOne fa fb o).take m, ln⟩) := by
+    intro fuel ln first hfu
+    obtain ⟨g, ln', hl, hg⟩ := pdb_cut_partial pa fa pb fb ha hb o hat m hlo hm ln
+    have hlen : ((pdbDumpOne fa fb o).take m).length ≥ 1 := by
+      rw [List.length_take]; omega
+    obtain ⟨k, rfl⟩ : ∃ k, fuel = k + 2 := ⟨fuel - 2, by omega⟩
+    refine ⟨g, hg, ?_⟩
+    have h2 : pdbLoadOne pa pb ⟨[], ln'⟩ = .raise .loadError ⟨[], ln' + 1⟩ := by simp [pdbLoadOne, pdbGo]
+    simp [runLoop, pdbSkel, runPeek, hl, h2, findHandler]
+  obtain ⟨r, ⟨g, hg, hr⟩, he⟩ := runLoop_blocks_any pdbSkel (pdbLoadOne pa pb) (pdbBlockLines fa fb)
+    pdbBlockFrame PdbBlockOk (pdbBlockLines_ne fa fb)
+    (fun b hb' rest ln first => pdb_step pa fa pb fb ha hb b hb' rest ln first)
+    ((pdbDumpOne fa fb o).take m) PartialEnd htail (os.map pdbBlockOfObj) _ 0 true
+    (by intro b hb'; simp at hb'; obtain ⟨o', ho, rfl⟩ := hb'; exact pdbBlockOk_ofObj o' (hd o' ho))
+    (Nat.le_refl _)
+  refine ⟨g, hg, ?_⟩
+  subst hr
+  rw [pdb_flatMap_ofObj, pdb_map_ofObj] at he
+  simpa [apiFinal] using loadMany_of_runLoop _ _ _ _ _ he
+
+/-- a written file cut inside the TITLE / COMPND records of its last frame, after at least one complete frame: no
+    atom record of the last frame is in the file; the sequence ends normally after the complete frames -/
+theorem pdb_cut_in_header (ha : ∀ a, pa (pATOM ++ [' ', ' '] ++ fa a) = some a)
+    (hb : ∀ b, pb (pCONECT ++ fb b) = some b) (os : List (PdbObj α β)) (hne : os ≠ []) (hd : ∀ o ∈ os, PdbDom o)
+    (o : PdbObj α β) (m : Nat) (hm : m ≤ (pdbHeader o).length) :
+    loadMany pdbSkel (pdbLoadOne pa pb) (os.flatMap (pdbDumpOne fa fb) ++ (pdbDumpOne fa fb o).take m) =
+      ⟨os.map pdbNorm, .done⟩ := by
+  have := pdb_blocks_roundtrip pa fa pb fb ha hb (os.map pdbBlockOfObj) (by simpa using hne)
+    (by intro b hb'; simp at hb'; obtain ⟨o', ho, rfl⟩ := hb'; exact pdbBlockOk_ofObj o' (hd o' ho))
+    ((pdbDumpOne fa fb o).take m)
+    (by
+      intro l hl
+      rw [pdbDumpOne_split, List.take_append_of_le_length hm] at hl
+      rcases pdbHeader_mem o l (List.mem_of_mem_take hl) with ⟨r, rfl⟩ | ⟨r, rfl⟩ <;>
+        simp [startsWith, pTITLE, pCOMPND, pATOM, pHETATM, pCONECT, List.isPrefixOf])
+  rwa [pdb_flatMap_ofObj, pdb_map_ofObj] at this
 
 /-- a file without any ATOM/HETATM record is rejected (before commit a119425 it yielded zero frames silently) -/
 theorem pdb_no_molecule_rejected (ls : List Line)
@@ -495,6 +558,14 @@ theorem pdb_no_molecule_rejected (ls : List Line)
   obtain ⟨ln', hk⟩ := key ls 0 ⟨[], [], [], [], false⟩ h
   refine ⟨ln', ?_⟩
   simp [loadMany, Lit.ofLines, runLoop, pdbSkel, runPeek, pdbLoadOne, hk, findHandler, apiFinal]
+
+/-- non-vacuity: a two-frame file with a three-line title, a two-line compound, CONECT records (kernel evaluation
+    of the same model; `TITLE     2 ` continuation records are read back without their number) -/
+example : loadMany pdbSkel (pdbLoadOne (fun l => some l) (fun l => some l))
+    ([(⟨['a', '\n', ' ', 'b', '\n', 'c'], some ['x', '\n', 'y'], [['p'], ['q']], [['1']]⟩ : PdbObj Line Line),
+      ⟨[], none, [['r']], []⟩].flatMap (pdbDumpOne id id)) =
+    ⟨[⟨[['a'], ['b'], ['c']], [['x'], ['y']], [pATOM ++ [' ', ' ', 'p'], pATOM ++ [' ', ' ', 'q']], [pCONECT ++ ['1']], true⟩,
+      ⟨[defaultTitle], [], [pATOM ++ [' ', ' ', 'r']], [], true⟩], .done⟩ := by decide
 end pdb
 
 /-! ## Witnesses: the loops before the repairs (commits 634dee3 … 78fd620) violated the property; the loops of
